@@ -304,7 +304,8 @@ ASSIGN_SCHEMAS = [
     ("name", "x = __E1", [("x", None, None, "__VE1", True)]),
     ("attribute", "o.attr = __E1", [("o", ("attr", "attr"), None, "__VE1", True)]),
     ("subscript-const-index", "o[0] = __E1", [("o", ("index", "0"), None, "__VE1", True)]),
-    ("subscript-index-expression", "o[__E2] = __E1", [("o", ("index", "__E2"), None, "__VE1", True)]),
+    ("subscript-index-expression", "o[__E2()] = __E1", [("o", ("index", "_ptera__1"), None, "_ptera__0", True)]),
+    ("subscript-name-index", "o[k] = __E1", [("o", ("index", "k"), None, "__VE1", True)]),
     ("deep-attribute", "o.a.b = __E1", []),
     ("call-attribute", "f().attr = __E1", []),
     ("chained", "x = y = __E1", [("x", None, None, "_ptera__0", True), ("y", None, None, "_ptera__0", True)]),
